@@ -14,6 +14,7 @@ Local Open Scope N_scope.
 Inductive stmt :=
 | SAlloc (id size kind : N)     (* p[id] = new char[size] / operator new / cpputest_malloc (kind 0 new, 1 new [], 2 malloc) *)
 | SFree (id : N)                (* release p[id] with the matching call; p[id] = NULL   (a NULL p[id]: nothing happens) *)
+| SRealloc (id size : N)        (* p[id] = cpputest_realloc(p[id], size)   (a NULL p[id]: like malloc) *)
 | SFail                         (* a failing check of the test itself: FAIL(...) *)
 | SExpect (n : N)               (* EXPECT_N_LEAKS(n) *)
 | SIgnore.                      (* IGNORE_ALL_LEAKS_IN_TEST() *)
@@ -52,6 +53,8 @@ Definition mem_stmt (d : det) (s : stmt) : det :=
   match s with
   | SAlloc id sz k => d_store d id sz k 0 0
   | SFree id => fst (d_dealloc d id)           (* p[id] == NULL (not outstanding): the table is left alone *)
+  | SRealloc id sz => d_store (fst (d_dealloc d id)) id sz 2 0 0     (* reallocMemory: the old record is removed, the new block
+                                                                        gets a new number and the CURRENT period *)
   | _ => d
   end.
 
@@ -151,8 +154,9 @@ Definition run (s : scenario) : obs :=
 (* ------------------------------------------------------------------ the property, read off the program text *)
 Definition is_fail (s : stmt) : bool := match s with SFail => true | _ => false end.
 Definition is_ignore (s : stmt) : bool := match s with SIgnore => true | _ => false end.
-Definition is_alloc (s : stmt) : bool := match s with SAlloc _ _ _ => true | _ => false end.
-Definition frees (id : N) (s : stmt) : bool := match s with SFree j => j =? id | _ => false end.
+(* a reallocation is a release followed by an allocation *)
+Definition is_alloc (s : stmt) : bool := match s with SAlloc _ _ _ | SRealloc _ _ => true | _ => false end.
+Definition frees (id : N) (s : stmt) : bool := match s with SFree j | SRealloc j _ => j =? id | _ => false end.
 
 (* the statements of a phase that are executed: up to and including the first failing check *)
 Fixpoint upto_fail (l : list stmt) : list stmt * bool :=
@@ -180,7 +184,8 @@ Definition allocs (l : list stmt) : N := len (filter is_alloc l).
 Fixpoint leaked (base : N) (l : list stmt) : list entry2 :=
   match l with
   | [] => []
-  | SAlloc id sz _ :: r => if existsb (frees id) r then leaked (base + 1) r else (base, sz) :: leaked (base + 1) r
+  | SAlloc id sz _ :: r | SRealloc id sz :: r =>
+      if existsb (frees id) r then leaked (base + 1) r else (base, sz) :: leaked (base + 1) r
   | _ :: r => leaked base r
   end.
 
@@ -239,11 +244,22 @@ Fixpoint valid_trace (live : list N) (l : list stmt) : bool :=
   | [] => true
   | SAlloc id sz k :: r => negb (existsb (N.eqb id) live) && (id <? 4096) && (sz <=? 64) && (k <? 3) && valid_trace (id :: live) r
   | SFree id :: r => valid_trace (filter (fun j => negb (j =? id)) live) r
+  | SRealloc id sz :: r => (id <? 4096) && (sz <=? 64) && valid_trace (id :: filter (fun j => negb (j =? id)) live) r
   | SExpect n :: r => (n <? 4294967296) && valid_trace live r
   | _ :: r => valid_trace live r
   end.
 Definition mem_only (l : list stmt) : bool :=
-  forallb (fun s => match s with SAlloc _ _ _ | SFree _ => true | _ => false end) l.
+  forallb (fun s => match s with SAlloc _ _ _ | SFree _ | SRealloc _ _ => true | _ => false end) l.
+(* cpputest_realloc is given blocks of the malloc family only (anything else is a mismatch, C06) *)
+Fixpoint kinds_ok (live : list (N * N)) (l : list stmt) : bool :=
+  match l with
+  | [] => true
+  | SAlloc id _ k :: r => kinds_ok ((id, k) :: filter (fun x => negb (fst x =? id)) live) r
+  | SFree id :: r => kinds_ok (filter (fun x => negb (fst x =? id)) live) r
+  | SRealloc id _ :: r => forallb (fun x => negb (fst x =? id) || (snd x =? 2)) live &&
+                          kinds_ok ((id, 2) :: filter (fun x => negb (fst x =? id)) live) r
+  | _ :: r => kinds_ok live r
+  end.
 Definition valid (s : scenario) : bool :=
   forallb (fun t => mem_only (t_before t)) (s_tests s) && mem_only (s_tail s) && mem_only (s_pre s) &&
-  (s_tbd s <? 4294967296) && valid_trace [] (s_pre s ++ trace s).
+  (s_tbd s <? 4294967296) && kinds_ok [] (s_pre s ++ trace s) && valid_trace [] (s_pre s ++ trace s).
